@@ -8,5 +8,6 @@ INVARIANT TypeOK
 INVARIANT Consistent
 INVARIANT GramInvariant
 INVARIANT LawC09
+INVARIANT RowBracket
 INVARIANT Export
 CHECK_DEADLOCK FALSE
